@@ -191,3 +191,29 @@ func GosymH_C10_pdh() {
 	gosym_Assert(pdh == gosym_MD5Hex([]byte(want))+"+"+strconv.Itoa(len(want)), "pdh-is-md5-and-length-of-the-stripped-manifest")
 	gosym_Reach("done")
 }
+
+// GosymH_C10_load_mutate: the same token-level mutation for the collection filesystem loader: no panic, and a
+// rejected manifest yields no filesystem at all (nothing is partially applied).
+func GosymH_C10_load_mutate() {
+	toks := []string{".", gosymC10Hashes[0] + "+3", gosymC10Hashes[1] + "+2", "0:3:f", "3:2:g"}
+	which := gosym_Choice("token", len(toks))
+	n := gosym_Choice("len", gosym_Param("maxlen", 3)+1)
+	toks[which] = gosym_String("bytes", n, "any")
+	if gosym_Fork("keep-prefix-of-original") {
+		orig := []string{"./d", gosymC10Hashes[0] + "+", gosymC10Hashes[1] + "+2+A", "0:", "3:2:"}
+		toks[which] = orig[which] + toks[which]
+	}
+	text := strings.Join(toks, " ") + "\n"
+	fs, err := (&Collection{ManifestText: text}).FileSystem(nil, gosymNewKeep())
+	if err != nil {
+		gosym_Assert(fs == nil, "rejected-manifest-is-not-partially-applied")
+		gosym_Reach("rejected")
+	} else {
+		_, merr := fs.MarshalManifest(".")
+		gosym_Assert(merr == nil, "accepted-manifest-can-be-saved-again")
+		gosym_Reach("accepted")
+	}
+	_ = PortableDataHash(text)
+	_, _ = (&Collection{ManifestText: text}).SizedDigests()
+	gosym_Reach("done")
+}
